@@ -381,3 +381,43 @@ pub fn replay_program(text: &str, rep: &mut Report, f: impl FnOnce(&Program, &mu
     }
     true
 }
+
+/// exhaustive tiny programs (sharded) + sampled pair programs, each handed to `f` under a panic guard
+pub fn for_tiny_programs(p: &Params, rep: &mut Report, stride: usize, pairs: u64, mut f: impl FnMut(&Program, u64, &mut Report)) {
+    let total = tiny_count();
+    let mut idx = p.shard as usize;
+    let step = p.nshards as usize * stride.max(1);
+    let mut rng = p.rng(0x71);
+    // with stride > 1 the offset rotates with the seed so that different seeds cover different residues
+    if stride > 1 {
+        idx += (p.seed as usize % stride) * p.nshards as usize;
+    }
+    let mut n = 0u64;
+    while idx < total {
+        let prog = tiny_program(idx);
+        let seed = rng.next();
+        n += 1;
+        if let Err(msg) = guard(|| f(&prog, seed, rep)) {
+            if panic_in_harness(&msg) {
+                rep.harness_error(format!("monitor panicked: {}", msg));
+            } else {
+                rep.violation("panic", "panic-unguarded", format!("crate panicked outside a guarded call: {}", msg), KIND_MGR, &prog.to_text(), seed);
+            }
+        }
+        idx += step;
+    }
+    for _ in 0..pairs {
+        let prog = tiny_pair_program(&mut rng);
+        let seed = rng.next();
+        n += 1;
+        if let Err(msg) = guard(|| f(&prog, seed, rep)) {
+            if panic_in_harness(&msg) {
+                rep.harness_error(format!("monitor panicked: {}", msg));
+            } else {
+                rep.violation("panic", "panic-unguarded", format!("crate panicked outside a guarded call: {}", msg), KIND_MGR, &prog.to_text(), seed);
+            }
+        }
+    }
+    rep.count("tiny_programs", n);
+    rep.count("tiny_program_space", if stride <= 1 { total as u64 / p.nshards.max(1) } else { 0 });
+}
